@@ -200,10 +200,12 @@ where
         part_upd.push_str(&g(|| match lossless::Paragraph::from_str(&ptext) {
             Ok(mut p) => {
                 let p0 = items_s(spec, &ll_items(&p));
+                let t0 = hex(&p.to_string());
                 v.update_paragraph(&mut p);
                 format!(
-                    "|priorll={}|updll={}|updlltext={}|updllrt={}",
+                    "|priorll={}|priorlltext={}|updll={}|updlltext={}|updllrt={}",
                     p0,
+                    t0,
                     items_s(spec, &ll_items(&p)),
                     text_s(spec, &to_items, &p.to_string()),
                     rt_s(spec, <T as FromDeb822Paragraph<lossless::Paragraph>>::from_paragraph(&p), v, same)
@@ -249,8 +251,9 @@ where
         part_upd.push_str(&g(|| match lossless::Paragraph::from_str(&ptext) {
             Ok(mut p) => {
                 let p0 = items_s(spec, &ll_items(&p));
+                let t0 = hex(&p.to_string());
                 v.update_paragraph(&mut p);
-                format!("|priorll={}|updll={}|updlltext={}", p0, items_s(spec, &ll_items(&p)), text_s(spec, &to_items, &p.to_string()))
+                format!("|priorll={}|priorlltext={}|updll={}|updlltext={}", p0, t0, items_s(spec, &ll_items(&p)), text_s(spec, &to_items, &p.to_string()))
             }
             Err(_) => "|priorll=ERR".to_string(),
         }));
